@@ -1071,6 +1071,8 @@ func (p *Parser) parseAnyClass(expr bool) (classDecl *ClassDecl) {
 func (p *Parser) parseClassElement() ClassElement {
 	method := &MethodDecl{}
 	var data []byte // either static, async, get, or set
+	// modifier: data is async, get, or set; asyncLT: async is followed by a line terminator
+	var modifier, asyncLT bool
 	if p.tt == StaticToken {
 		method.Static = true
 		data = p.data
@@ -1093,6 +1095,7 @@ func (p *Parser) parseClassElement() ClassElement {
 		p.next()
 	} else if p.tt == AsyncToken {
 		data = p.data
+		modifier = true
 		p.next()
 		if !p.prevLT {
 			method.Async = true
@@ -1101,14 +1104,18 @@ func (p *Parser) parseClassElement() ClassElement {
 				data = nil
 				p.next()
 			}
+		} else {
+			asyncLT = true
 		}
 	} else if p.tt == GetToken {
 		method.Get = true
 		data = p.data
+		modifier = true
 		p.next()
 	} else if p.tt == SetToken {
 		method.Set = true
 		data = p.data
+		modifier = true
 		p.next()
 	}
 
@@ -1116,17 +1123,18 @@ func (p *Parser) parseClassElement() ClassElement {
 	if data != nil && p.tt == OpenParenToken {
 		// (static) method name is: static, async, get, or set
 		method.Name.Literal = LiteralExpr{IdentifierToken, data}
-		if method.Async || method.Get || method.Set {
+		if modifier {
 			method.Async = false
 			method.Get = false
 			method.Set = false
 		} else {
 			method.Static = false
 		}
-	} else if data != nil && (p.tt == EqToken || p.tt == SemicolonToken || p.tt == CloseBraceToken) {
+	} else if data != nil && (asyncLT || p.tt == EqToken || p.tt == SemicolonToken || p.tt == CloseBraceToken) {
 		// (static) field name is: static, async, get, or set
+		// async before a line terminator is a field name, the field ends by automatic semicolon insertion
 		method.Name.Literal = LiteralExpr{IdentifierToken, data}
-		if !method.Async && !method.Get && !method.Set {
+		if !modifier {
 			method.Static = false
 		}
 		isField = true
@@ -1142,7 +1150,8 @@ func (p *Parser) parseClassElement() ClassElement {
 		} else {
 			method.Name.PropertyName = p.parsePropertyName("method or field definition")
 		}
-		if (data == nil || method.Static) && p.tt != OpenParenToken {
+		if !modifier && !method.Generator && p.tt != OpenParenToken {
+			// a name after *, async, get, or set must be a method
 			isField = true
 		}
 	}
